@@ -183,4 +183,107 @@ def oracle(line, out):
     return None
 
 
+def flag_reassigned(rng, tier, info):
+    """the wallet's public `testnet` attribute is assigned AFTER construction (w.testnet = ...): whatever the wallet
+    emits afterwards must carry ONE network — a wallet that answers partly from the flag and partly from something it
+    remembered at construction mixes the two.  (The BIP85 block and the Wasabi export follow the root node, DESIGN 10.4.)"""
+    n = 0
+    for _ in range(2 if tier == "quick" else 25):
+        sd = bytes(rng.getrandbits(8) for _ in range(rng.choice([16, 32, 64])))
+        for t0 in (False, True):
+            for how in ("seed", "raw"):
+                if how == "seed":
+                    w = impl.pw.PaperWallet.from_bip39_seed_bytes(bip39_seed=sd, testnet=t0)
+                else:
+                    w = impl.pw.PaperWallet(master=impl.bip32.PrvKeyNode.master_key(bip39_seed=sd, testnet=t0), testnet=t0)
+                w.testnet = not t0
+                node = w.by_path(rng.choice(["m/0/1", "m/84'/1'/0'/0/3", "m/44'/0'/2'"]))
+                got = []
+                for kind in KINDS:
+                    got.append((kind + " address", impl.addr_fn(w, kind)(node)))
+                ek = w.node_extended_keys(node)
+                got += [("node extended public key", ek["pub"]), ("node extended private key", ek["prv"])]
+                rep = w.generate(account=rng.choice([0, 1]), interval=(0, 2))
+                for path, leaf in leaves(rep):
+                    if path and path[0] != "BIP85":
+                        got.append(("report leaf %s" % (path,), leaf))
+                n += len(got)
+                nets = {}
+                for what, v in got:
+                    c = classify(v)
+                    if c is not None:
+                        nets.setdefault(c, (what, v))
+                if len(nets) > 1:
+                    yield ("# PaperWallet built from seed %s with testnet=%s (%s route), then `w.testnet = %s`" % (
+                        sd.hex(), t0, how, not t0),
+                        "one wallet emits both networks: %s is %s (mainnet) while %s is %s (testnet)" % (
+                            nets["main"][0], nets["main"][1], nets["test"][0], nets["test"][1]))
+                    return
+    info["flag_reassigned_outputs"] = n
+
+
+def objects_in_report_data(rng, tier, info):
+    """json / pprint / export_wallet are handed caller-built `data` that holds library objects (nodes, private and public
+    keys) next to ordinary rows.  The unchanged library refuses such data; whatever is rendered instead of a refusal is
+    wallet output, and every network-tagged string in it must carry the wallet's network."""
+    import contextlib
+    import io
+    import json
+    import os
+    import shutil
+    import tempfile
+    n = 0
+    tmp = tempfile.mkdtemp(prefix="verif_c16_")
+    try:
+        for _ in range(2 if tier == "quick" else 20):
+            sd = bytes(rng.getrandbits(8) for _ in range(32))
+            for t in (True, False):
+                w = impl.pw.PaperWallet.from_bip39_seed_bytes(bip39_seed=sd, testnet=t)
+                node = w.by_path("m/84'/%d'/0'/0/%d" % (1 if t else 0, rng.randrange(20)))
+                objs = {"node": node, "private key": node.private_key, "public key": node.public_key,
+                        "public node": impl.bip32.PubKeyNode(key=node.public_key.sec(), chain_code=node.chain_code,
+                                                             index=node.index, depth=node.depth, testnet=t,
+                                                             parent_fingerprint=node.parent_fingerprint)}
+                for what, obj in objs.items():
+                    for shape in ({"key": obj}, {"rows": [["m/0", "x", obj]]}, [obj]):
+                        for route in ("json", "pprint", "export_wallet"):
+                            text = None
+                            try:
+                                if route == "json":
+                                    text = w.json(data=shape)
+                                elif route == "pprint":
+                                    buf = io.StringIO()
+                                    with contextlib.redirect_stdout(buf):
+                                        w.pprint(data=shape)
+                                    text = buf.getvalue()
+                                else:
+                                    fn = os.path.join(tmp, "o%d.json" % n)
+                                    w.export_wallet(file_path=fn, data=shape)
+                                    text = open(fn).read()
+                            except Exception:
+                                pass
+                            n += 1
+                            if not text:
+                                continue
+                            try:
+                                val = json.loads(text)
+                            except ValueError:
+                                continue
+                            for path, leaf in leaves(val):
+                                c = classify(leaf)
+                                if c is not None and c != ("test" if t else "main"):
+                                    yield ("# %snet PaperWallet (seed %s): %s(data=...) with a %s object inside the data" % (
+                                        "test" if t else "main", sd.hex(), route, what),
+                                        "the rendered text carries a %snet artefact: %s" % (c, leaf))
+                                    return
+    finally:
+        shutil.rmtree(tmp, ignore_errors=True)
+    info["object_data_renderings"] = n
+
+
+def extra_checks(rng, tier, g, info):
+    yield from flag_reassigned(rng, tier, info)
+    yield from objects_in_report_data(rng, tier, info)
+
+
 known_match = common.no_known
